@@ -153,6 +153,7 @@ class C08(Property):
     def _drive(self, out, spec, o, inp, g, ga, gb, base_a, base_b, order, ma, mb, mode, pu, cu, shape_a, shape_b):
         hist = History()
         last_arr = None
+        last_payload = None
         forms_seen, pulls_between = set(), 0
 
         def value_a(k):
@@ -170,11 +171,16 @@ class C08(Property):
                 expect_error = None
                 if kind == "push":
                     payload, last_arr = self._payload(vals, form, pu, order, ma if mode == "flex_masked" else None, mode, not g["cls"].startswith("nogrid"))
+                    last_payload = payload
                     forms_seen.add(form)
                 elif kind in ("push_shared", "push_view"):
                     if last_arr is None or (o.data and isinstance(o.data[-1][1], str)):
                         continue  # nothing to share memory with (previous entry lives on disk)
                     payload = last_arr if kind == "push_shared" else last_arr.reshape(last_arr.shape)[...]
+                    if fm.data.is_quantified(last_payload) and np.shares_memory(np.asarray(last_payload.magnitude), last_arr):
+                        # the same buffer again, wrapped the same way as before (e.g. a quantity in an equivalent spelling)
+                        payload = fm.UNITS.Quantity(payload, last_payload.units)
+                        out.count("shared_republications_as_quantity")
                     expect_error = fm.FinamDataError
                 elif kind == "push_incompatible":
                     bad_units = "s" if pu not in ("s",) else "m"
